@@ -20,7 +20,7 @@ Violation keys (DESIGN 2.6 `<rule>:<direction>:<construct class>`):
   icu:<ENC>:<verdict>                                   ICU round trip / split invariance / illegal input
   alias:<NAME>:<verdict>, probe:<form>, doc:<...>
 """
-import codecs, os, struct
+import codecs, os, re, struct
 from concurrent.futures import ThreadPoolExecutor
 from .. import core, build
 from ..gen import xcref
@@ -106,7 +106,8 @@ def gen_sb_sweeps():
     cs = []
     for enc, key in xcref.TABLE_ENCODINGS:
         tab = xcref.table(key)
-        c = X('sb.' + enc, 4, mode='sbsweep', enc=enc, ucps=','.join('%X' % x for x in sorted(xcref.undecided_cps(key))))
+        c = X('sb.' + enc, 4, mode='sbsweep', enc=enc, ucps=','.join('%X' % x for x in sorted(xcref.undecided_cps(key))),
+              bf=','.join('%X' % x for x in sorted(xcref.XERCES_ONE_WAY)))
         c.txt(table_txt(tab, xcref.undecided_bytes(key)))
         c.meta['key'] = key
         cs.append(c)
@@ -378,7 +379,7 @@ def make_body(r, pool, nonascii_names, size):
         elif k < 0.9:
             parts.append('<?p%d %s?>' % (i, txt(r.randint(0, 8)).replace('?', '.')))
         else:
-            parts.append('<![CDATA[%s]]>' % txt(r.randint(0, 8)))
+            parts.append('<![CDATA[%s]]>' % txt(r.randint(1, 8)))
     parts.append('</r%s>' % nm)
     return ''.join(parts)
 
@@ -435,7 +436,7 @@ def gen_docs(tier, r):
                 if wfam == fam:
                     continue
                 for use_bom in ((False, True) if bom else (False,)):
-                    if gi >= 2 and r.random() < 0.7:
+                    if gi >= 1 and r.random() < 0.8:
                         continue
                     data = (bom if use_bom else b'') + enc_doc_text(label, codec, decl(wrong) + body)
                     n += 1
@@ -618,6 +619,10 @@ def eval_str(ck, c, rec):
     """split-variance / size bookkeeping reports are consequences when the same string already has a value verdict:
     they are then attached to that verdict instead of getting keys of their own"""
     res = list(_eval_str(ck, c, rec))
+    direct = [x for x in res if ':helper-' not in x[0] and not any(t in x[0] for t in SECONDARY)]
+    if direct:
+        # TranscodeFromStr/TranscodeToStr sit on top of transcodeFrom/To: same root cause, no key of its own
+        res = [x for x in res if ':helper-' not in x[0]]
     primary = [x for x in res if not any(t in x[0] for t in SECONDARY)]
     if primary:
         extra = [x[0] + ': ' + x[1][:200] for x in res if x not in primary]
@@ -874,8 +879,8 @@ def run(tier):
     env = {'ASAN_OPTIONS': core.SAN_ENV['ASAN_OPTIONS'] + ':quarantine_size_mb=4:thread_local_quarantine_size_kb=64'}
     recs = {}
     with ThreadPoolExecutor(2) as ex:
-        f1 = ex.submit(core.run_cases, binary, heavy, max(1, SHARDS - 2), 'c05s', 200.0, (), env)
-        f2 = ex.submit(core.run_cases, binary, light, 2 if SHARDS > 3 else 1, 'c05l', 60.0)
+        f1 = ex.submit(core.run_cases, binary, heavy, max(1, SHARDS - 3), 'c05s', 200.0, (), env)
+        f2 = ex.submit(core.run_cases, binary, light, 3 if SHARDS > 4 else 1, 'c05l', 60.0)
         recs.update(f1.result())
         recs.update(f2.result())
     ck.note('executed')
@@ -897,7 +902,7 @@ def judge(ck, cases, recs, groups):
             if r is None:
                 ck.inconclusive.append('case %s not executed' % c.id)
             else:
-                ck.crash_violation(r, c)
+                crash_violation(ck, r, c)
             continue
         mode = c.opt.get('mode') if c.cmd == 'xcode' else 'doc'
         if mode == 'doc':
@@ -1089,6 +1094,27 @@ def judge_docs(ck, by_group, groups):
                          'document containing the ill-formed sequence %s was parsed without a fatal error' % c.meta['seq'], {'case': c.to_json(), 'expected': 'fatal error', 'observed': ev[:8] + rep[:4]})
 
 
+def crash_violation(ck, rec, c):
+    """like core.Check.crash_violation, but with address-free keys and the input class in the key"""
+    m = c.meta
+    if c.cmd == 'parse':
+        ctx = 'doc:%s' % m.get('role', '?')
+        if m.get('role') in ('contra', 'contra-member', 'contra-bom8'):
+            ctx += ':%s-bytes:decl-%s' % (m.get('fam'), m.get('decl'))
+    else:
+        ctx = 'xcode:%s:%s' % (c.opt.get('mode'), c.opt.get('enc', '-'))
+    if rec.hang and not rec.crash:
+        ck.violation('hang:%s' % ctx, 'case did not terminate within the watchdog', {'case': c.to_json()})
+        return
+    cr = rec.crash
+    kind = cr.kind
+    if 'misaligned address' in kind:
+        kind = 'misaligned-' + kind.split(' ')[0]
+    kind = re.sub(r'0x[0-9a-fA-F]+|NxN[0-9a-fN]*', 'ADDR', kind)
+    fn = next((f[0] for f in cr.frames if f[1]), cr.frames[0][0] if cr.frames else '?')
+    ck.violation('%s:%s:%s:%s' % (cr.tool, kind.strip().replace(' ', '-')[:50], fn, ctx), 'sanitizer/crash report in %s' % fn, {'case': c.to_json(), 'report': cr.text[:5000]})
+
+
 def replay(j):
     w = j['witness']
     c = core.Case.from_json(w['case'])
@@ -1105,7 +1131,7 @@ def replay(j):
         r = recs.get(x.id)
         if r is None or not r.complete or r.crash or r.hang:
             if r is not None:
-                ck.crash_violation(r, x)
+                crash_violation(ck, r, x)
             continue
         if x.cmd == 'parse':
             by_group.setdefault(x.meta.get('group', '-'), []).append((x, r))
